@@ -4,9 +4,9 @@ CONSTANTS
   Nodes = {"n1", "n2", "n3"}
   MaxUid = 3
   Repairs = {"uid", "leak"}
-  MaxW = 5
-  Ttls = {0, 1, 3}
-  MaxNow = 3
+  MaxW = 4
+  Ttls = {0, 2}
+  MaxNow = 2
 INVARIANT TypeOK
 INVARIANT GInv
 INVARIANT TtInv
